@@ -55,6 +55,22 @@ theorem C12_variadic_nil_is_zero (fuel : Nat) (t : Ty) (a : Option Expr) (rest :
     bindVariadic (fuel + 1) t (a :: rest) acc s = bindVariadic fuel t rest (acc ++ [zeroOf t]) s1 := by
   simp [bindVariadic, bind, h, Val.isNil, pure]
 
+/-- a TYPED nil pointer is a value, not nil: it is passed on unchanged when the parameter can take it (an
+    `interface{}` parameter or a pointer parameter of its own type), and is NOT replaced by the zero value — only the
+    untyped nil is (the class of seeded change C12-h; tied to /repo by pointer arguments in the `render-struct` stream) -/
+theorem C12_typed_nil_pointer_is_a_value (fuel : Nat) (blk : Option Block) (a : Option Expr) (t : Ty) (pty : String)
+    (rest : List (Option Expr × Ty)) (acc : List Val) (s s1 : ES)
+    (h : evalExpr fuel a s = (.ok (.ptr pty none), s1)) (ha : assignableTo (.named pty) t = true) :
+    bindFixed (fuel + 1) blk ((a, t) :: rest) acc s = bindFixed fuel blk rest (acc ++ [.ptr pty none]) s1 :=
+  C12_good_arg fuel blk a t rest acc s s1 (.ptr pty none) (.named pty) h rfl rfl ha
+
+/-- … and it is rejected, with the helper not invoked, when the parameter cannot take it -/
+theorem C12_typed_nil_pointer_rejected (fuel : Nat) (blk : Option Block) (a : Option Expr) (t : Ty) (pty : String)
+    (rest : List (Option Expr × Ty)) (acc : List Val) (s s1 : ES)
+    (h : evalExpr fuel a s = (.ok (.ptr pty none), s1)) (ha : assignableTo (.named pty) t = false) :
+    bindFixed (fuel + 1) blk ((a, t) :: rest) acc s = (.err { kind := "invalid-argument" }, s1) := by
+  simp [bindFixed, bind, h, Val.isNil, Val.ty, ha, getCur, getS, fail, throwErr, pure]
+
 /-- the variadic tail receives ALL remaining arguments, in order -/
 theorem C12_variadic_all (fuel : Nat) (t : Ty) (acc : List Val) (s : ES) :
     bindVariadic (fuel + 1) t [] acc s = (.ok acc, s) := by
